@@ -21,10 +21,12 @@ class Model:
         names = ["a", "b", "a"][:n]
         self.cols = {"name": list(names), "x": [1.5 * (i + 1) for i in range(n)], "y": [i + 1 for i in range(n)],
                      "o": [OBJS[i] for i in range(n)], "m": [[1.0 * i, i + 0.5] for i in range(n)],
-                     "sign": [(-1.0) ** i * (i + 1) for i in range(n)]}       # a column named like a numpy ufunc
-        self.order = ["name", "x", "y", "o", "m", "sign"]
+                     "sign": [(-1.0) ** i * (i + 1) for i in range(n)],       # a column named like a numpy ufunc
+                     "prev": [i - 1 for i in range(n)]}                       # a column of row POSITIONS (the first one negative)
+        self.order = ["name", "x", "y", "o", "m", "sign", "prev"]
         self.index = "name"
-        self.scalars = {"q": SCALAR}
+        # non-column entries: a number, and a vector whose length happens to EQUAL the row count
+        self.scalars = {"q": SCALAR, "vec": [0.5 + j for j in range(n)]}
 
     def n(self):
         return len(self.cols[self.order[0]])
@@ -51,7 +53,9 @@ def cell(v):
 
 ROWSELS = [("slice", 1, None, None), ("slice", None, None, 2), ("slice", None, None, -1), ("slice", 0, 0, None),
            ("list", (0,)), ("list", (1, 0)), ("list", ()), ("maskall",), ("maskalt",), ("regex", "a.*"), ("regex", "zz"),
-           ("int", 0), ("head", 1), ("tail", 2), ("neg",)]
+           ("int", 0), ("head", 1), ("tail", 2), ("neg",),
+           # integer ARRAYS as selectors: a fresh one with a negative entry, and a column of the table itself (shares its memory)
+           ("intarr", (-1, 0)), ("bycol", "prev")]
 COLSELS = ["x", "x y", ["y"], "x+y", "x+2*y", "o", ["x", "x*x"], "m y", "sign*2", ["sign", "x*sign"]]
 
 
@@ -90,8 +94,9 @@ class System(simple.SimpleSystem):
             o[i] = v
         data = {"name": np.array(m.cols["name"], dtype=object), "x": np.array(m.cols["x"], dtype=float),
                 "y": np.array(m.cols["y"], dtype=int), "o": o, "m": np.array(m.cols["m"], dtype=float).reshape(m.n(), 2),
-                "sign": np.array(m.cols["sign"], dtype=float), "q": SCALAR}
-        t = Table(data, col_names=["name", "x", "y", "o", "m", "sign"])
+                "sign": np.array(m.cols["sign"], dtype=float), "prev": np.array(m.cols["prev"], dtype=int), "q": SCALAR,
+                "vec": np.array(m.scalars["vec"], dtype=float)}
+        t = Table(data, col_names=["name", "x", "y", "o", "m", "sign", "prev"])
         return {"t": t, "m": m, "src": None, "anc": []}
 
     def enabled(self, live, hist):
@@ -106,6 +111,11 @@ class System(simple.SimpleSystem):
                 if op[1] == "int" and op[2] >= n:
                     continue
                 if op[1] == "regex" and m.index is None:
+                    continue
+                if op[1] == "intarr" and any(not -n <= p < n for p in op[2]):
+                    continue
+                if op[1] == "bycol" and (op[2] not in m.cols or n == 0 or
+                                         any(not (isinstance(p, int) and -n <= p < n) for p in m.cols[op[2]])):
                     continue
             elif k == "cols":
                 if any(c not in m.cols for e in expr_cols(op[1]) for c in needs(e)):
@@ -162,6 +172,12 @@ class System(simple.SimpleSystem):
             elif kind == "int":
                 sel = op[2]
                 pos = [op[2]]
+            elif kind == "intarr":
+                sel = np.array(op[2], dtype=int)
+                pos = [p % n for p in op[2]]
+            elif kind == "bycol":
+                sel = t[op[2]]                       # the column array itself
+                pos = [p % n for p in m.cols[op[2]]]
             elif kind == "head":
                 pos = allpos[:op[2]]
                 sel = None
@@ -179,7 +195,10 @@ class System(simple.SimpleSystem):
             elif kind == "neg":
                 derived = -t
             else:
+                sel_before = sel.tolist() if isinstance(sel, np.ndarray) else None
                 derived = t.rows[sel]
+                if sel_before is not None and sel.tolist() != sel_before:
+                    live["sel_changed"] = (sel_before, sel.tolist())
             m.take(pos)
         elif k == "cols":
             names = expr_cols(op[1])
@@ -368,6 +387,9 @@ class System(simple.SimpleSystem):
             if now != snap:
                 issues.append(self.issue(hist, op, "deriving a table changed its source", {"before": snap, "after": now}))
         live["src"] = None
+        sc = live.pop("sel_changed", None)
+        if sc is not None:
+            issues.append(self.issue(hist, op, f"selecting rows changed the selector array handed in: {sc[0]!r} -> {sc[1]!r}"))
         # every table produced earlier in the history is still a well-formed table with the columns and length it had
         # (cell VALUES may change through shared arrays; that is not claimed by the property)
         ev = live.pop("expr_value", None)
@@ -418,12 +440,12 @@ class System(simple.SimpleSystem):
                 return issues
             if m.scalars is not None:
                 for kk, vv in m.scalars.items():
-                    if kk not in d or kk in d._col_names or d[kk] != vv:
+                    if kk not in d or kk in d._col_names or cell(d[kk]) != cell(vv):
                         issues.append(self.issue(hist, op, f"scalar entry {kk!r} was not carried over to a table derived from the current one"))
                         return issues
         if m.scalars is not None and op[0] in ("rows", "cols", "copy", "mul", "add", "setscalar"):
             for kk, vv in m.scalars.items():
-                if kk not in t or kk in t._col_names or t[kk] != vv:
+                if kk not in t or kk in t._col_names or cell(t[kk]) != cell(vv):
                     issues.append(self.issue(hist, op, f"scalar entry {kk!r} was not carried over to the derived table"))
                     break
         return issues
@@ -507,6 +529,58 @@ def constructor_cases():
                         yield n, (d1, d2, d3), (n, l2, l3), {"name": mk["U"](n) if d1 == "U" else mk[d1](n), "a": mk[d2](l2), "b": mk[d3](l3)}
 
 
+def colnames_cases():
+    """the constructor with explicit col_names / index: every subset of the three data keys as the column list x every choice of the
+    index (a listed column, an unlisted data key, a name that is no key, the default).  Whatever is accepted must be a well-formed table
+    (index among the columns, listed columns present and of equal length, unlisted keys kept as non-column entries); the rest ValueError."""
+    import itertools
+    import numpy as np
+    keys = ("name", "a", "b")
+    for n in (0, 2):
+        data = {"name": np.array([f"s{j}" for j in range(n)], dtype=object), "a": np.arange(n) * 1.5, "b": np.arange(n)}
+        for r in range(0, 4):
+            for cols in itertools.permutations(keys, r):
+                for index in (None, "name", "a", "zz"):
+                    yield n, data, list(cols), index
+
+
+def run_colnames(issues):
+    from xdeps import Table
+    ev = 0
+    for n, data, cols, index in colnames_cases():
+        ev += 1
+        kw = {"col_names": list(cols)}
+        if index is not None:
+            kw["index"] = index
+        eff_index = index if index is not None else "name"
+        well_formed = eff_index in cols
+        what = None
+        try:
+            t = Table(dict(data), **kw)
+            pr = rect_problems(t)
+            if pr:
+                what = f"accepted and built a table that is not well formed: {pr[0]}"
+            elif not well_formed:
+                what = f"accepted although the index column {eff_index!r} is not among the columns {cols!r}"
+            elif list(t._col_names) != list(cols):
+                what = f"column list is {list(t._col_names)!r}, given {cols!r}"
+            else:
+                for k in data:
+                    if k not in cols and (k not in t._data or cell(t._data[k]) != cell(data[k])):
+                        what = f"the unlisted entry {k!r} was not kept as it was given"
+        except ValueError:
+            if well_formed:
+                what = "rejected a well-formed request"
+        except Exception as e:  # noqa
+            what = f"raised {type(e).__name__}: {e}"
+        if what and len(issues) < 20:
+            issues.append({"kind": "violation", "property": "C14", "finding": None, "config": {},
+                           "what": f"Table(data, col_names={cols!r}, index={index!r}) with {n} rows: {what}",
+                           "program": [f"Table({{'name': ..., 'a': ..., 'b': ...}}, col_names={cols!r}" + (f", index={index!r})" if index else ")")],
+                           "case": {"colnames": [n, cols, index]}})
+    return ev
+
+
 def run_constructor(job):
     import time
     from xdeps import Table
@@ -514,6 +588,7 @@ def run_constructor(job):
     ev = 0
     issues = []
     accepted = rejected = 0
+    ev += run_colnames(issues)
     for n, dts, lens, data in constructor_cases():
         ev += 1
         ragged = len(set(lens)) > 1
